@@ -69,7 +69,7 @@ Clauses == <<
   <<"C19d", "C19", "big">>,
   <<"C20a", "C20", "tr">>, <<"C20b", "C20", "tr">>,
   <<"S01", "S", "tr">>, <<"S03", "S", "end">>,
-  <<"H01", "H", "st">>, <<"H02", "H", "tr">> >>
+  <<"H01", "H", "st">>, <<"H02", "H", "tr">>, <<"H03", "H", "end">> >>
 
 Selected(kind) == {c[1] : c \in {x \in ToSet(Clauses) : x[2] \in SelProps /\ x[3] = kind}}
 ClauseNames == {c[1] : c \in {x \in ToSet(Clauses) : x[2] \in SelProps}}
@@ -217,6 +217,7 @@ EvalEnd(n, e, s, twinE, twinS, prevE, prevS) ==
     [] n = "C18d" -> C18d(cx, s, nh, h1)
     [] n = "C18e" -> C18e(cx, s, nh, h1)
     [] n = "S03" -> S03(cx.c, s, nh, h1)
+    [] n = "H03" -> H03(cx, s, e.exactcmp, ToSet(e.exact))
 
 Results(r) ==
   \* [clause name -> "na" | "ok" | "bad"] for the clauses that apply to this line kind
